@@ -2,5 +2,5 @@
 EXTENDS Glue, Json
 ExportJson == Len(svc) > 0 => PrintT("SCHED " \o ToJson([methods |-> [i \in DOMAIN svc |-> [name |-> svc[i].name, raw |-> svc[i].name \in RawOnly,
                          variant |-> Variant(svc[i]), nargs |-> svc[i].nargs, argty |-> svc[i].argty, ret |-> svc[i].ret]],
-                         accepted |-> Accepted]))
+                         attr |-> attr, accepted |-> Accepted]))
 =============================================================================
